@@ -15,6 +15,8 @@ SEEDS = {
     "c12-1": ("C12", "group mixing identity keys with the higher-priority key earlier (id: first, name: second), selecting the later member", ["C12"]),
     "c13-1": ("C13", "last() with a bounded/list scan window whose largest line lies beyond the end of the file", ["C13"]),
     "c14-1": ("C14", "latch and onchange on the same variable, x already set, a later differing y", ["C14"]),
+    "c15-1": ("C15", "unmatched-mode keep + collect() + a blank line inside the range of lines read", ["C15"]),
+    "c19-1": ("C19", "two CsvPaths jobs on ONE CsvPaths instance, the first using append() with a new header name on the same named file", ["C19"]),
     "c16-1": ("C16", "three-part variables reference (.key/.index/.length) whose selected value is falsy (empty string, 0, False)", ["C16"]),
 }
 
